@@ -23,10 +23,21 @@ type history struct {
 	insts []*Instance
 	id    int
 	step  int
+	prog  []string // the construction program so far (for the replay of a behaviour change)
+	// twin: after a construction from shared values, what distinguishes the new instance from one built from FRESH values
+	// with the same options (nil: not applicable)
+	twin func() []string
+}
+
+func progEntry(d Desc) string {
+	return fmt.Sprintf("#%d=%s(%s|%s)", d.ID, d.Entry, strings.Join(d.Opts, "+"), strings.Join(d.Vals, "+"))
 }
 
 func descKV(l *hx.Line, p string, d Desc) {
 	l.I(p+"id", int64(d.ID)).S(p+"ty", d.Ty).S(p+"entry", d.Entry).L(p+"opts", d.Opts)
+	if len(d.Vals) > 0 {
+		l.L(p+"vals", d.Vals)
+	}
 }
 
 // observed runs `step` between two snapshots and writes the differences into l
@@ -55,8 +66,10 @@ func (h *history) observed(l *hx.Line, acting *Instance, extra []Supplied, step 
 	}
 	// observing the other instances runs library code (getters, discovery handler): outside the snapshot window
 	o0 := make([]map[string]string, len(others))
+	i0 := make([]map[string]string, len(others))
 	for i, in := range others {
 		o0[i] = w.Observe(in)
+		i0[i] = w.Behave(in)
 	}
 	b0 := probe(true)
 	g0 := SnapGlobals()
@@ -88,11 +101,19 @@ func (h *history) observed(l *hx.Line, acting *Instance, extra []Supplied, step 
 	}
 	gch := DiffGlobals(g0, g1)
 	b1 := probe(false)
-	var och []string
+	var och, ich []string
 	for i, in := range others {
 		if len(Diff("", o0[i], w.Observe(in))) > 0 {
 			och = append(och, fmt.Sprintf("#%d:%s", in.Desc.ID, in.Desc.Ty))
 		}
+		// behaviour of the EARLIER instances as their clients see it (discovery issuer + endpoints, authorize, keys)
+		for _, k := range Diff("", i0[i], w.Behave(in)) {
+			ich = append(ich, fmt.Sprintf("#%d:%s%s", in.Desc.ID, in.Desc.Ty, k))
+		}
+	}
+	if h.twin != nil {
+		ich = append(ich, h.twin()...)
+		h.twin = nil
 	}
 	var bch []string
 	for k := range b0 {
@@ -102,7 +123,7 @@ func (h *history) observed(l *hx.Line, acting *Instance, extra []Supplied, step 
 	}
 	sort.Strings(bch)
 	sort.Strings(sch)
-	l.L("g.changed", gch).L("s.changed", dedupe(sch)).L("b.changed", bch).L("o.changed", och).L("spare", dedupe(spare)).
+	l.L("g.changed", gch).L("s.changed", dedupe(sch)).L("b.changed", bch).L("o.changed", och).L("ib.changed", ich).L("spare", dedupe(spare)).
 		I("races", 0).S("res", res).B("panic", panicked)
 	Restore()
 }
@@ -120,6 +141,11 @@ func dedupe(xs []string) []string {
 }
 
 func (h *history) construct(kind, entry string, opts []string) *hx.Line {
+	return h.constructShared(kind, entry, opts, nil)
+}
+
+// constructShared: ps != nil builds a provider from values shared with other constructions of this history
+func (h *history) constructShared(kind, entry string, opts []string, ps *ProvShare) *hx.Line {
 	l := hx.NewLine("C20").S("kind", "construct").S("entry", entry).I("hist", int64(h.id)).I("step", int64(h.step))
 	h.step++
 	var in *Instance
@@ -137,10 +163,47 @@ func (h *history) construct(kind, entry string, opts []string) *hx.Line {
 	case "ks":
 		d.Ty = "rp.remoteKeySet"
 	}
+	d.Vals = ps.Vals(opts)
 	descKV(l, "inst.", d)
-	h.observed(l, nil, nil, func() string {
+	if ps != nil {
+		l.S("share", fmt.Sprintf("issuer=%s;slice=%v;storage=%v;config=%v", ps.Issuer, ps.Slice, ps.Storage, ps.Config))
+	}
+	h.prog = append(h.prog, progEntry(d))
+	l.L("prog", h.prog)
+	var extra []Supplied
+	var build func() *Instance
+	if ps != nil {
+		// the caller's part (filling the option slice) happens before the observed window
+		build = h.w.PrepareProviderShared(opts, h.sh, ps)
+		extra = []Supplied{{"op.Config", h.sh.OpConfig}, {"[]op.Option", h.sh.OptSlice[:cap(h.sh.OptSlice)]}}
+	}
+	if ps != nil {
+		// a provider built from values that earlier constructions used must come out like one built from fresh values
+		h.twin = func() []string {
+			if in == nil || in.Err != nil {
+				return nil
+			}
+			tps := *ps
+			tps.Tag = fmt.Sprint(in.Desc.ID)
+			tw := h.w.BuildProviderShared(opts, h.w.NewShared(), &tps)
+			if tw.Err != nil {
+				return []string{fmt.Sprintf("#%d:%s.twin:construct-failed", in.Desc.ID, in.Desc.Ty)}
+			}
+			var out []string
+			ds := append(Diff("", h.w.Observe(tw), h.w.Observe(in)), Diff("", h.w.Behave(tw), h.w.Behave(in))...)
+			for _, k := range append(ds, Diff(".shape", Shape(tw.Prov), Shape(in.Prov))...) {
+				out = append(out, fmt.Sprintf("#%d:%s.twin%s", in.Desc.ID, in.Desc.Ty, k))
+			}
+			return dedupe(out)
+		}
+	}
+	h.observed(l, nil, extra, func() string {
 		switch kind {
 		case "prov":
+			if build != nil {
+				in = build()
+				break
+			}
 			in = h.w.BuildProvider(entry, opts)
 		case "rp":
 			in = h.w.BuildRP(entry, opts, h.sh, h.r)
@@ -238,6 +301,37 @@ func SeqStream(w *World, r *hx.Rand, tier string, n int, emit func(*hx.Line)) ma
 		out(h.construct("prov", "op.NewOpenIDProvider", []string{"op.WithLogger"}))
 		out(h.construct("prov", "op.NewProvider", []string{"op.WithLogger", "op.WithCustomEndpoints", "op.WithCORSOptions"}))
 		out(h.call(OpByEntry("op.Discover"), h.insts[0]))
+		// providers built from SHARED values with different other options, in both orders: the same issuer factory value
+		// (insecure first / secure first), the same option values, option slice, storage and config object
+		for _, mk := range IssuerMakers {
+			for _, insecureFirst := range []bool{true, false} {
+				h = newHist()
+				a := []string{"op.WithAllowInsecure", "op.WithLogger"}
+				b := []string{"op.WithLogger", "op.WithCustomAuthEndpoint", "op.WithCustomKeysEndpoint"}
+				if !insecureFirst {
+					a, b = b, a
+				}
+				ps := &ProvShare{Issuer: mk, Opts: map[string]bool{"op.WithLogger": true}, Slice: true, Storage: !insecureFirst, Config: true}
+				out(h.constructShared("prov", "op.NewProvider", a, ps))
+				out(h.constructShared("prov", "op.NewProvider", b, ps))
+				out(h.call(OpByEntry("op.Discover"), h.insts[0]))
+				stats["construct.provider-shared"] += 2
+			}
+		}
+		{
+			// every option VALUE handed to two (three) constructions: an option that remembers that it was applied, or what
+			// it was applied to, makes the later providers differ from providers built from fresh values
+			h = newHist()
+			all := map[string]bool{}
+			for _, o := range ProviderOpts {
+				all[o] = true
+			}
+			ps := &ProvShare{Issuer: "op.StaticIssuer", Opts: all, Slice: true, Config: true}
+			out(h.constructShared("prov", "op.NewProvider", ProviderOpts, ps))
+			out(h.constructShared("prov", "op.NewProvider", ProviderOpts, ps))
+			out(h.constructShared("prov", "op.NewProvider", ProviderOpts[:8], &ProvShare{Issuer: "op.IssuerFromHost", Opts: all, Storage: true}))
+			stats["construct.provider-shared"] += 3
+		}
 		h = newHist() // RP with the package default client: logout / revocation, then later calls
 		out(h.construct("rp", "rp.NewRelyingPartyOIDC", nil))
 		out(h.construct("rp", "rp.NewRelyingPartyOIDC", []string{"rp.WithLogger"}))
@@ -287,6 +381,21 @@ func SeqStream(w *World, r *hx.Rand, tier string, n int, emit func(*hx.Line)) ma
 					opts := pickOpts(r, ProviderOpts[:8], 25)
 					if r.Chance(45) {
 						opts = append(opts, pickOpts(r, ProviderOpts[8:], 20)...)
+					}
+					if r.Chance(40) {
+						// built from values that the other shared constructions of this history get as well
+						ps := &ProvShare{Opts: map[string]bool{}, Slice: r.Bool(), Storage: r.Chance(30), Config: r.Bool()}
+						if r.Chance(85) {
+							ps.Issuer = hx.Pick(r, IssuerMakers...)
+						}
+						for _, o := range opts {
+							if r.Bool() {
+								ps.Opts[o] = true
+							}
+						}
+						out(h.constructShared("prov", "op.NewProvider", opts, ps))
+						stats["construct.provider-shared"]++
+						break
 					}
 					out(h.construct("prov", hx.Pick(r, ProviderEntries...), opts))
 					stats["construct.provider"]++
@@ -361,6 +470,8 @@ type Mix struct {
 	CKind, CEntry string
 	COpts         []string
 	Fresh         bool // goroutines start immediately after construction, nothing is used before (first-use race window)
+	// ShareIssuer: the instance AND the concurrently constructed providers are built from the same issuer factory value
+	ShareIssuer string
 }
 
 var Mixes = []Mix{
@@ -389,6 +500,12 @@ var Mixes = []Mix{
 		CKind: "prov", CEntry: "op.NewProvider", COpts: []string{"op.WithLogger", "op.WithAllowInsecure", "op.WithCORSOptions"}},
 	{Name: "provider-construct-custom", Kind: "prov", Entry: "op.NewProvider", Opts: []string{"op.WithLogger"}, Ops: []string{"op.Discover"},
 		CKind: "prov", CEntry: "op.NewProvider", COpts: []string{"op.WithLogger", "op.WithCustomAuthEndpoint", "op.WithCustomTokenEndpoint"}},
+	{Name: "provider-construct-shared-issuer", Kind: "prov", Entry: "op.NewProvider", Opts: []string{"op.WithLogger", "op.WithAllowInsecure"},
+		Ops: []string{"op.Discover", "op.Authorize", "op.Keys"}, ShareIssuer: "op.IssuerFromHost",
+		CKind: "prov", CEntry: "op.NewProvider", COpts: []string{"op.WithLogger", "op.WithCustomTokenEndpoint"}},
+	{Name: "provider-construct-shared-forwarded", Kind: "prov", Entry: "op.NewProvider", Opts: []string{"op.WithLogger"},
+		Ops: []string{"op.Discover", "op.Exchange"}, ShareIssuer: "op.IssuerFromForwardedOrHost",
+		CKind: "prov", CEntry: "op.NewProvider", COpts: []string{"op.WithLogger", "op.WithAllowInsecure"}},
 	{Name: "rp-construct-same-config", Kind: "rp", Entry: "rp.NewRelyingPartyOAuth", Opts: []string{"rp.WithHTTPClient"}, Ops: []string{"rp.AuthURL", "rp.ClientCredentials"},
 		CKind: "rp", CEntry: "rp.NewRelyingPartyOAuth", COpts: []string{"rp.WithHTTPClient", "rp.WithAuthStyle"}},
 	{Name: "device-state-getters", Kind: "fnstate", Ops: []string{"op.DeviceAuthorizationState.GetScopes"}},
@@ -417,6 +534,10 @@ func RunMix(w *World, m *Mix, r *hx.Rand, goroutines, iters int) *hx.Line {
 	var shared *Args // for function-level mixes: one caller-owned object used by all goroutines
 	switch m.Kind {
 	case "prov":
+		if m.ShareIssuer != "" {
+			in = w.BuildProviderShared(m.Opts, h.sh, &ProvShare{Issuer: m.ShareIssuer})
+			break
+		}
 		in = w.BuildProvider(m.Entry, m.Opts)
 	case "rp":
 		in = w.BuildRP(m.Entry, m.Opts, h.sh, r)
@@ -441,7 +562,11 @@ func RunMix(w *World, m *Mix, r *hx.Rand, goroutines, iters int) *hx.Line {
 		descKV(l, "inst.", Desc{})
 	}
 	if m.CEntry != "" {
-		descKV(l, "cinst.", Desc{ID: 0, Ty: in.Desc.Ty, Entry: m.CEntry, Opts: m.COpts})
+		cps := (*ProvShare)(nil)
+		if m.ShareIssuer != "" {
+			cps = &ProvShare{Issuer: m.ShareIssuer}
+		}
+		descKV(l, "cinst.", Desc{ID: 0, Ty: in.Desc.Ty, Entry: m.CEntry, Opts: m.COpts, Vals: cps.Vals(m.COpts)})
 	}
 	l.I("goroutines", int64(goroutines)).I("iters", int64(iters))
 
@@ -501,6 +626,10 @@ func RunMix(w *World, m *Mix, r *hx.Rand, goroutines, iters int) *hx.Line {
 				for i := 0; i < iters; i++ {
 					switch m.CKind {
 					case "prov":
+						if m.ShareIssuer != "" {
+							w.BuildProviderShared(m.COpts, h.sh, &ProvShare{Issuer: m.ShareIssuer})
+							break
+						}
 						w.BuildProvider(m.CEntry, m.COpts)
 					case "rp":
 						w.BuildRP(m.CEntry, m.COpts, sh, hx.NewRand(uint64(g*1000+i)))
